@@ -332,7 +332,7 @@ impl Prop for C06 {
     }
     fn rule(&self) -> String {
         "random histories over three layouts and random options (suggestions on 3/4, English on 1/2): a prefix of 1-10 events (all 111 keys, AltGr, backspaces, earlier words) ending in each of the terminators \
-         (commit of the highlighted index, commit of another index, finish, ctrl-backspace on a non-empty composition, plain backspaces until one returns an empty suggestion), then a continuation of 1-12 events replayed in the used context and in a reference context. \
+         (commit of the highlighted index, commit of another index, finish, ctrl-backspace on a non-empty composition, plain backspaces until one returns an empty suggestion), plus 16 targeted prefixes known to leave something behind (back-ticks, emoticon-shaped keys, swallowed keys, waiting signs, a waiting sign replaced by another one, reph on nothing) under every terminator against truly new contexts; then a continuation of 1-12 events replayed in the used context and in a reference context. \
          The reference is a second context over the same user directory whose method object is re-created before each comparison by update_engine to another layout and back; every mismatch is re-checked from scratch (the whole life of the used context is replayed on a new context, then the continuation is compared with a truly new context) before it is reported, \
          and one history in 8 (quick) / 4 (thorough) uses a truly new context directly. Flag clauses are judged on every event. distinct_nontrivial = distinct (configuration, terminator, hook state at the terminator) triples followed by a compared continuation."
             .into()
